@@ -105,6 +105,17 @@ struct Stats {
 	block_cancel_ok: u64,
 	block_cancel_err: u64,
 	cancel_cases: u64,
+	/// special-sum cases (offset sums 0, 1, 2, n-2, n-1): cases per target value; aggregates whose
+	/// offset is the target; de-aggregations (ok) by the special value of the remainder's offset and
+	/// of the known subset's offset; blocks by the special value of previous + aggregate offset
+	sp_cases: BTreeMap<String, u64>,
+	sp_agg: BTreeMap<String, u64>,
+	sp_deagg_rem: BTreeMap<String, u64>,
+	sp_deagg_sub: BTreeMap<String, u64>,
+	sp_block: BTreeMap<String, u64>,
+	sp_operand: BTreeMap<String, u64>,
+	sp_partial3: u64,
+	sp_partial4: u64,
 }
 
 struct World<'a> {
@@ -124,6 +135,13 @@ struct World<'a> {
 	/// the next case builds its block on a previous header whose total offset is minus the
 	/// aggregate's offset
 	cancel_prev: bool,
+	/// special-sum case: the offset the flat aggregate must carry (with its name)
+	expect_offset: Option<([u8; 32], &'static str)>,
+	/// the next case builds its block on a previous header whose total offset makes
+	/// previous + aggregate offset this value
+	prev_target: Option<[u8; 32]>,
+	/// a special-sum case is running (statistics)
+	special: bool,
 }
 
 fn err_name(e: &TxError) -> String {
@@ -548,6 +566,84 @@ fn sum_offsets(kc: &ExtKeychain, txs: &[Transaction]) -> Option<BlindingFactor> 
 	secp.blind_sum(keys, vec![]).ok().map(BlindingFactor::from_secret_key)
 }
 
+// ---- scalars as 32 big-endian bytes, arithmetic modulo the group order (independent of secp)
+fn be_add(a: &[u8; 32], b: &[u8; 32]) -> ([u8; 32], bool) {
+	let mut r = [0u8; 32];
+	let mut carry = 0u32;
+	for i in (0..32).rev() {
+		let t = a[i] as u32 + b[i] as u32 + carry;
+		r[i] = t as u8;
+		carry = t >> 8;
+	}
+	(r, carry != 0)
+}
+
+fn be_sub(a: &[u8; 32], b: &[u8; 32]) -> ([u8; 32], bool) {
+	let mut r = [0u8; 32];
+	let mut borrow = 0i32;
+	for i in (0..32).rev() {
+		let mut d = a[i] as i32 - b[i] as i32 - borrow;
+		if d < 0 {
+			d += 256;
+			borrow = 1;
+		} else {
+			borrow = 0;
+		}
+		r[i] = d as u8;
+	}
+	(r, borrow != 0)
+}
+
+/// (a - b) mod n for a, b < n
+fn sub_mod(a: &[u8; 32], b: &[u8; 32]) -> [u8; 32] {
+	let (d, borrow) = be_sub(a, b);
+	if borrow {
+		be_add(&d, &ORDER).0
+	} else {
+		d
+	}
+}
+
+fn scalar_u64(x: u64) -> [u8; 32] {
+	let mut r = [0u8; 32];
+	r[24..].copy_from_slice(&x.to_be_bytes());
+	r
+}
+
+/// n - x
+fn order_minus(x: u64) -> [u8; 32] {
+	be_sub(&ORDER, &scalar_u64(x)).0
+}
+
+fn bytes32(b: &[u8]) -> [u8; 32] {
+	let mut r = [0u8; 32];
+	r.copy_from_slice(&b[..32]);
+	r
+}
+
+fn bf_of(b: &[u8; 32]) -> BlindingFactor {
+	if b.iter().all(|x| *x == 0) {
+		BlindingFactor::zero()
+	} else {
+		BlindingFactor::from_slice(b)
+	}
+}
+
+/// the special values of an offset sum: 0, 1, 2, n-2, n-1
+fn special_values() -> Vec<([u8; 32], &'static str)> {
+	vec![
+		(scalar_u64(0), "0"),
+		(scalar_u64(1), "1"),
+		(scalar_u64(2), "2"),
+		(order_minus(2), "n-2"),
+		(order_minus(1), "n-1"),
+	]
+}
+
+fn special_name(b: &[u8]) -> Option<&'static str> {
+	special_values().into_iter().find(|(v, _)| &v[..] == b).map(|(_, n)| n)
+}
+
 fn describe_tx(ids: &Ids, tx: &Transaction) -> String {
 	ids.tx_str(tx)
 }
@@ -615,6 +711,14 @@ fn run_case(
 	let all: Vec<usize> = (0..n).collect();
 	let flat = transaction::aggregate(&txs);
 	out.line(&format!("tx agg {} {}", case_no, idx_str(&all)), &ids.res_str(&flat));
+	// special-sum case: the aggregate exists and carries exactly the chosen sum
+	if let Some((exp, name)) = w.expect_offset.take() {
+		match &flat {
+			Ok(agg) if agg.offset.as_ref() == &exp[..] => *w.st.sp_agg.entry(name.to_string()).or_insert(0) += 1,
+			Ok(agg) => oracle_fail(out, &mut w.st, &format!("case {}: operands with offsets {:?} must aggregate to offset {} ({}) but the aggregate carries {}", case_no, txs.iter().map(|t| hex(t.offset.as_ref())).collect::<Vec<_>>(), hex(&exp), name, hex(agg.offset.as_ref()))),
+			Err(e) => oracle_fail(out, &mut w.st, &format!("case {}: operands with offsets {:?} (sum {} = {}) do not aggregate: {}", case_no, txs.iter().map(|t| hex(t.offset.as_ref())).collect::<Vec<_>>(), hex(&exp), name, err_name(e))),
+		}
+	}
 	// conflict-freeness of the operand multiset, evaluated on the real commitments
 	let mut in_count: HashMap<Vec<u8>, i64> = HashMap::new();
 	let mut out_count: HashMap<Vec<u8>, i64> = HashMap::new();
@@ -810,10 +914,23 @@ fn run_case(
 			}
 			// zero remainder offset: the aggregate and the aggregate of the known subset carry the
 			// same non-zero offset (evaluated on the implementation's own values)
-			let zero_rem = match transaction::aggregate(&stx) {
+			let sub_agg = transaction::aggregate(&stx);
+			let zero_rem = match &sub_agg {
 				Ok(a) => !mk.offset.is_zero() && a.offset == mk.offset && has_scalar_offset(w.kc, mk),
 				Err(_) => false,
 			};
+			if w.special {
+				if let (Ok(d), Ok(a)) = (&r, &sub_agg) {
+					if !sub.is_empty() && sub.len() < n {
+						if let Some(name) = special_name(d.offset.as_ref()) {
+							*w.st.sp_deagg_rem.entry(name.to_string()).or_insert(0) += 1;
+						}
+						if let Some(name) = special_name(a.offset.as_ref()) {
+							*w.st.sp_deagg_sub.entry(name.to_string()).or_insert(0) += 1;
+						}
+					}
+				}
+			}
 			if zero_rem {
 				match &r {
 					Ok(d) => {
@@ -937,8 +1054,24 @@ fn run_case(
 			}
 		}
 	}
+	// previous total offset chosen so that previous + aggregate offset is a given (special) value
+	let mut block_target: Option<[u8; 32]> = None;
+	if let Some(t) = w.prev_target.take() {
+		if let Ok(agg) = &flat {
+			prev.total_kernel_offset = bf_of(&sub_mod(&t, &bytes32(agg.offset.as_ref())));
+			block_target = Some(t);
+		}
+	}
 	let blk = Block::from_reward(&prev, &txs, rout.clone(), rkern.clone(), Difficulty::min_dma());
 	w.st.blocks += 1;
+	if let Some(t) = block_target {
+		let name = special_name(&t).unwrap_or("other");
+		match &blk {
+			Ok(b) if b.header.total_kernel_offset.as_ref() == &t[..] => *w.st.sp_block.entry(name.to_string()).or_insert(0) += 1,
+			Ok(b) => oracle_fail(out, &mut w.st, &format!("case {}: previous total offset {} + aggregate offset must be {} ({}) but the block's total offset is {}", case_no, hex(prev.total_kernel_offset.as_ref()), hex(&t), name, hex(b.header.total_kernel_offset.as_ref()))),
+			Err(e) => oracle_fail(out, &mut w.st, &format!("case {}: Block::from_reward fails with {} when previous total offset {} + aggregate offset is {} ({})", case_no, block_err_name(e), hex(prev.total_kernel_offset.as_ref()), hex(&t), name)),
+		}
+	}
 	if block_cancels {
 		match &blk {
 			Ok(b) if b.header.total_kernel_offset.is_zero() => w.st.block_cancel_ok += 1,
@@ -1130,6 +1263,51 @@ fn run_case(
 	}
 }
 
+/// One special-sum case: fresh, independent, valid transactions with exactly the given offsets
+/// (in the given operand order; run_case adds every permutation), whose sum must be `expect`.
+#[allow(clippy::too_many_arguments)]
+fn special_case(
+	out: &mut Out,
+	w: &mut World,
+	offs: &[[u8; 32]],
+	expect: ([u8; 32], &'static str),
+	subs: Vec<Vec<usize>>,
+	prev_target: [u8; 32],
+	thorough: bool,
+	case_no: &mut u64,
+) {
+	let mut ops: Vec<usize> = vec![];
+	for (j, o) in offs.iter().enumerate() {
+		let (k1, k2) = (w.fresh_key(), w.fresh_key());
+		let v = w.rng.range(50, 5000);
+		let fee = w.rng.range(1, 9);
+		let features = w.rand_features(fee as u32);
+		let tx = w.build_tx(&[(v, k1)], &[(v - fee, k2)], features, OffMode::Random, Some(bf_of(o)));
+		if tx.validate(Weighting::AsTransaction).is_err() {
+			oracle_fail(out, &mut w.st, &format!("special-sum case: the fresh transaction with offset {} is not valid", hex(o)));
+		}
+		if let Some(name) = special_name(o) {
+			*w.st.sp_operand.entry(name.to_string()).or_insert(0) += 1;
+		}
+		w.pool.push(PTx { tx, family: 30000 + 10 * (*case_no as usize) + j, parents: vec![], conflict: false, parts: vec![] });
+		ops.push(w.pool.len() - 1);
+	}
+	*w.st.sp_cases.entry(expect.1.to_string()).or_insert(0) += 1;
+	w.expect_offset = Some(expect);
+	w.extra_subs = subs;
+	w.prev_target = Some(prev_target);
+	w.special = true;
+	*case_no += 1;
+	run_case(out, w, &ops, true, thorough, *case_no);
+	w.special = false;
+	w.expect_offset = None;
+	w.prev_target = None;
+	w.extra_subs.clear();
+	for _ in 0..ops.len() {
+		w.pool.pop();
+	}
+}
+
 fn to_v2(tx: &Transaction) -> Transaction {
 	let ins: Vec<CommitWrapper> = tx.inputs().into();
 	let ins: Vec<Input> = ins
@@ -1171,6 +1349,7 @@ fn main() {
 	global::set_local_nrd_enabled(true);
 	global::set_local_accept_fee_base(1);
 	quiet_panics();
+	let t_start = std::time::Instant::now();
 	let thorough = tier_thorough();
 	let seed = seed_from_env();
 	let mut rng = Rng::new(seed);
@@ -1189,8 +1368,12 @@ fn main() {
 		last_excess: None,
 		extra_subs: vec![],
 		cancel_prev: false,
+		expect_offset: None,
+		prev_target: None,
+		special: false,
 	};
 
+	eprintln!("tx phase {} at {:?}", 0, t_start.elapsed());
 	// ---- the pool of real transactions
 	let nfam = if thorough { 60 } else { 12 };
 	for f in 0..nfam {
@@ -1236,6 +1419,7 @@ fn main() {
 		w.pool.len() - base_len
 	));
 
+	eprintln!("tx phase {} at {:?}", 1, t_start.elapsed());
 	// ---- cases
 	let ncases = if thorough { 1500 } else { 100 };
 	let mut case_no = 0u64;
@@ -1334,6 +1518,7 @@ fn main() {
 		}
 	}
 
+	eprintln!("tx phase {} at {:?}", 2, t_start.elapsed());
 	// ---- small cases: 0 and 1 operands, singletons in groupings
 	for i in 0..3usize.min(w.pool.len()) {
 		case_no += 1;
@@ -1351,6 +1536,7 @@ fn main() {
 		w.pool.pop();
 	}
 
+	eprintln!("tx phase {} at {:?}", 3, t_start.elapsed());
 	// ---- malformed / not-normal operands (none of the validity oracles applies; the model must
 	// still follow the code): offset bytes that are not a scalar, unsorted bodies, an aggregate
 	// together with one of its own parts (duplicate kernel, duplicate inputs/outputs)
@@ -1416,6 +1602,7 @@ fn main() {
 	}
 	out.raw(&format!("#STAT malformed-operand cases={} (offset not a scalar / unsorted body / aggregate with one of its parts)", malformed));
 
+	eprintln!("tx phase {} at {:?}", 4, t_start.elapsed());
 	// ---- offsets that cancel, generated in numbers: a set of conflict-free operands out of the pool
 	// plus one fresh independent transaction whose offset is minus the sum of all the others' offsets
 	// (the aggregate's offset is zero), or minus the offset of one other operand (a group / a
@@ -1528,6 +1715,79 @@ fn main() {
 		}
 	}
 
+	eprintln!("tx phase {} at {:?}", 5, t_start.elapsed());
+	// ---- offset sums at special values: operands with chosen offsets k and (v - k) mod n for
+	// v in {0, 1, 2, n-2, n-1} and k in {1, 2, random, n-2, n-1} (both operand orders, groupings,
+	// de-aggregation of either part, block on a previous total offset such that previous + aggregate
+	// is again a special value); the same pair plus a random third operand (remainder offset = v,
+	// subset offset = v); three and four operands whose partial sums pass through 0 / n-1 in some
+	// order (all permutations are run).  Rule-fixed answer: the aggregate exists, carries offset v,
+	// validates, and de-aggregates back.
+	{
+		let specials = special_values();
+		let rounds = if thorough { 3 } else { 1 };
+		let mut bt = 0usize; // block target, cycling through the special values
+		for round in 0..rounds {
+			for (vi, (v, vname)) in specials.iter().enumerate() {
+				for ki in 0..5usize {
+					let k: [u8; 32] = match ki {
+						0 => scalar_u64(1),
+						1 => scalar_u64(2),
+						2 => bytes32(&w.rand_scalar()[..]),
+						3 => order_minus(2),
+						_ => order_minus(1),
+					};
+					let rest = sub_mod(v, &k);
+					// (A) the pair, in one order here and in the other by the permutation loop
+					let pair = if (round + vi + ki) % 2 == 0 { vec![k, rest] } else { vec![rest, k] };
+					bt += 1;
+					special_case(&mut out, &mut w, &pair, (*v, *vname), vec![vec![0], vec![1], vec![0, 1], vec![1, 0]], specials[bt % 5].0, thorough, &mut case_no);
+					// (B) the pair and a random third operand: remainder {k, v-k} has offset v; known
+					// subset {k, v-k} has offset v
+					// (quick tier: (B) and (C) for k in {1, random, n-1} only)
+					if !thorough && ki % 2 == 1 {
+						continue;
+					}
+					let r = bytes32(&w.rand_scalar()[..]);
+					let (tot, _) = {
+						let (sum, carry) = be_add(v, &r);
+						let (red, borrow) = be_sub(&sum, &ORDER);
+						if carry || !borrow { (red, true) } else { (sum, false) }
+					};
+					let tname = special_name(&tot).unwrap_or("other");
+					bt += 1;
+					special_case(&mut out, &mut w, &[k, r, rest], (tot, tname), vec![vec![1], vec![0, 2], vec![2, 0], vec![0], vec![2], vec![0, 1, 2]], specials[bt % 5].0, thorough, &mut case_no);
+					// (C) three operands, the partial sum of the first two is p (0 or n-1), the total v
+					for (pi, p) in [scalar_u64(0), order_minus(1)].iter().enumerate() {
+						if (ki / 2 + vi + pi + round) % 2 == 1 && !thorough {
+							continue;
+						}
+						let offs = [k, sub_mod(p, &k), sub_mod(v, p)];
+						bt += 1;
+						w.st.sp_partial3 += 1;
+						special_case(&mut out, &mut w, &offs, (*v, *vname), vec![vec![0, 1], vec![2], vec![1, 2], vec![0], vec![0, 1, 2]], specials[bt % 5].0, thorough, &mut case_no);
+					}
+				}
+				// (D) four operands, partial sums k, p1, p2, v with (p1, p2) = (0, n-1) and (n-1, 0)
+				for (di, (p1, p2)) in [(scalar_u64(0), order_minus(1)), (order_minus(1), scalar_u64(0))].iter().enumerate() {
+					if !thorough && (vi + di) % 2 == 1 {
+						continue;
+					}
+					let k: [u8; 32] = match (round + vi + di) % 3 {
+						0 => bytes32(&w.rand_scalar()[..]),
+						1 => scalar_u64(1),
+						_ => order_minus(1),
+					};
+					let offs = [k, sub_mod(p1, &k), sub_mod(p2, p1), sub_mod(v, p2)];
+					bt += 1;
+					w.st.sp_partial4 += 1;
+					special_case(&mut out, &mut w, &offs, (*v, *vname), vec![vec![0, 1], vec![2, 3], vec![0, 1, 2], vec![3], vec![1, 2], vec![0, 1, 2, 3]], specials[bt % 5].0, thorough, &mut case_no);
+				}
+			}
+		}
+	}
+
+	eprintln!("tx phase {} at {:?}", 6, t_start.elapsed());
 	// ---- deliberate probes of the two offset corner cases (recorded findings, repaired in /repo:
 	// the #KNOWN-PROBE lines below must not appear any more)
 	{
@@ -1561,6 +1821,7 @@ fn main() {
 		}
 	}
 
+	eprintln!("tx phase {} at {:?}", 7, t_start.elapsed());
 	// ---- size boundaries: aggregates and blocks of exactly the maximal weight, and an aggregate
 	// with more than a thousand outputs (validated without a weight limit)
 	{
@@ -1661,6 +1922,7 @@ fn main() {
 		}
 	}
 
+	eprintln!("tx phase {} at {:?}", 8, t_start.elapsed());
 	let st = &w.st;
 	out.raw(&format!(
 		"#STAT cases={} independent={} chained={} with-conflicts={} with-multikernel-operand={} with-v2-operand={} sizes={:?}",
@@ -1683,6 +1945,10 @@ fn main() {
 		st.cancel_cases, st.agg_cancel, st.agg_cancel_cf, st.agg_cancel_valid, st.agg_cancel_failed, st.group_cancel,
 		st.deagg_zero_rem_ok, st.deagg_whole_ok, st.deagg_zero_rem_oracle_equal, st.deagg_zero_rem_err,
 		st.block_cancel_ok, st.block_cancel_err
+	));
+	out.raw(&format!(
+		"#STAT special offset sums (v in 0,1,2,n-2,n-1): cases per target sum={:?}; aggregate exists and carries the target={:?}; operands whose own offset is special={:?}; three-operand partial-sum cases={} four-operand={}; de-aggregations (ok) by special value of the remainder's offset={:?} of the known subset's offset={:?}; blocks with previous + aggregate offset at a special value={:?}",
+		st.sp_cases, st.sp_agg, st.sp_operand, st.sp_partial3, st.sp_partial4, st.sp_deagg_rem, st.sp_deagg_sub, st.sp_block
 	));
 	out.raw(&format!(
 		"#STAT blocks={} (errors {}) hydrates={} (input-representation mismatches {}) known-probes={} oracle-fails={}",
